@@ -289,7 +289,7 @@ func c04Long(c *Ctx) {
 
 // c04Sizes sweeps name lengths densely around multiples of the usual buffer sizes.
 func c04Sizes(c *Ctx) {
-	spans := [][2]int{{3950, 4200}}
+	spans := [][2]int{{3950, 4200}, {8040, 8200}}
 	if c.Thorough {
 		spans = [][2]int{{3900, 4250}, {8000, 8300}, {16200, 16500}, {65300, 65700}}
 	}
@@ -298,28 +298,43 @@ func c04Sizes(c *Ctx) {
 		for l := sp[0]; l <= sp[1]; l++ {
 			c.Case(idx, func(k *K) {
 				r := k.Rand()
-				nf := 4 + r.IntN(9)
-				first := genBED(r, nf)
-				first.Name = string(longText(r, l, nil))
-				second := genBED(r, nf)
-				k.Input("N", nf)
 				k.Input("name_len", l)
-				var ms []func() ([]byte, error)
-				var ws []func(io.Writer) error
-				var want []item
-				for _, rec := range []*bed.BED{first, second} {
-					ms = append(ms, rec.MarshalText)
-					ws = append(ws, rec.Write)
-					want = append(want, item{Key: bedKey(bedExpected(rec))})
+				// two records per length: one with random fields, and one with every field present and each at
+				// its widest (real coordinates, three-digit colour values, the same for every length) — so that
+				// the END OF EVERY FIELD meets every offset around the buffer sizes as the name grows byte by byte
+				for variant := 0; variant < 2 && !k.Failed(); variant++ {
+					nf := 4 + r.IntN(9)
+					if variant == 1 {
+						nf = 9 + int(k.Idx%4)
+					}
+					first := genBED(r, nf)
+					first.Name = string(longText(r, l, nil))
+					if variant == 1 {
+						first.Chrom, first.ChromStart, first.ChromEnd = "chr1", 155000000, 155100000
+						first.Score, first.Strand = 1000, "+"
+						first.ThickStart, first.ThickEnd = first.ChromStart, first.ChromEnd
+						first.ItemRGB = [3]byte{255, 128, 128}
+						k.Count("size_sweep_cases_all_fields_wide", 1)
+					}
+					second := genBED(r, nf)
+					k.Input("N", nf)
+					var ms []func() ([]byte, error)
+					var ws []func(io.Writer) error
+					var want []item
+					for _, rec := range []*bed.BED{first, second} {
+						ms = append(ms, rec.MarshalText)
+						ws = append(ws, rec.Write)
+						want = append(want, item{Key: bedKey(bedExpected(rec))})
+					}
+					text := heldMarshalCheck(k, ms, ws)
+					got, over := collect(codecByName("bed").seq(bytes.NewReader(text)), 5)
+					if over || !sameTrace(got, want) {
+						k.Failf("roundtrip", "records around a buffer-size boundary decoded differently:\n got  %.800s\n want %.800s", traceString(got), traceString(want))
+					}
+					k.Count("records_roundtripped", 2)
+					k.Count("size_sweep_cases", 1)
+					k.Nontrivial([]byte(fmt.Sprint(nf, l, variant)), text[:min(64, len(text))])
 				}
-				text := heldMarshalCheck(k, ms, ws)
-				got, over := collect(codecByName("bed").seq(bytes.NewReader(text)), 5)
-				if over || !sameTrace(got, want) {
-					k.Failf("roundtrip", "records around a buffer-size boundary decoded differently:\n got  %.800s\n want %.800s", traceString(got), traceString(want))
-				}
-				k.Count("records_roundtripped", 2)
-				k.Count("size_sweep_cases", 1)
-				k.Nontrivial([]byte(fmt.Sprint(nf, l)), text[:min(64, len(text))])
 			})
 			idx++
 		}
